@@ -249,6 +249,15 @@ func (u *Unit) builtin(f *Frame, st *State, bi *ssa.Builtin, cc *ssa.CallCommon,
 	case "copy":
 		return []Val{u.copyBuiltin(f, st, args[0], args[1])}
 	case "append":
+		// call-site obligations for appends to a named slice: `callsite append:<first argument text> requires ...`
+		// (vararg0.. are the appended elements when they are listed at the call)
+		if u.con != nil && len(u.con.CallSites) > 0 {
+			if ce := u.ctx.callExprAt(pos); ce != nil && len(ce.Args) >= 1 {
+				name := "append:" + compact(types.ExprString(ce.Args[0]))
+				sig := types.NewSignatureType(nil, nil, nil, types.NewTuple(types.NewVar(token.NoPos, nil, "s", args[0].Ty), types.NewVar(token.NoPos, nil, "elems", args[1].Ty)), nil, true)
+				u.callSiteObligationsNamed(f, st, name, "", name, []string{"s", "elems"}, sig, args, pos)
+			}
+		}
 		return []Val{u.appendBuiltin(f, st, args[0], args[1], resTy)}
 	case "delete":
 		mt := args[0].Ty.Underlying().(*types.Map)
